@@ -14,9 +14,15 @@ def one(d):
     except Exception: return m["id"], None, "no result"
     if "error" in res: return m["id"], None, res["error"]
     m["checks"] = res.get("checks", {})
+    if not str(m.get("demo", {}).get("run", "")).startswith("GOOS=js"):  # (js/wasm demonstrations are run by hand, see their meta)
+        m["valid"] = res.get("demo_without_change_exit") == 0 and res.get("demo_with_change_exit") != 0 and res.get("suite_with_change_exit") == 0
+        w = m.setdefault("what_was_run", {})
+        w["existing suite with the change (exit)"] = res.get("suite_with_change_exit")
+        w["demonstration without the change (exit)"] = res.get("demo_without_change_exit")
+        w["demonstration with the change (exit)"] = res.get("demo_with_change_exit")
     m["confirmed_against_repo_commit"] = subprocess.check_output(["git", "-C", "/repo", "rev-parse", "--short", "HEAD"]).decode().strip()
     json.dump(m, open(mp, "w"), indent=1)
-    return m["id"], {p: r["exit"] for p, r in m["checks"].items()}, ""
+    return m["id"], {p: r["exit"] for p, r in m["checks"].items()}, "" if m.get("valid") else "DEMONSTRATION NO LONGER VALID (without=%s with=%s suite=%s)" % (res.get("demo_without_change_exit"), res.get("demo_with_change_exit"), res.get("suite_with_change_exit"))
 def main():
     args = sys.argv[1:]; j = 4
     if args[:1] == ["-j"]: j = int(args[1]); args = args[2:]
@@ -24,6 +30,6 @@ def main():
     with ThreadPoolExecutor(j) as ex:
         for sid, res, err in ex.map(one, dirs):
             caught = res and any(v == 1 for v in res.values())
-            print(sid, res if res is not None else "ERROR " + err, "" if caught or res is None else "<-- NOT CAUGHT", flush=True)
+            print(sid, res if res is not None else "ERROR " + err, "" if caught or res is None else "<-- NOT CAUGHT", err if res is not None else "", flush=True)
 if __name__ == "__main__":
     main()
